@@ -222,7 +222,7 @@ fn c03(rep: &mut Report, g: &mut G, thorough: bool) {
     for (ver, name, (sign, verify)) in &public_backends {
         let (tsign, tverify) = tp_public(ver);
         let (sk, pk) = keypair(ver);
-        let step = if *ver == "v3" && !thorough { 3 } else { 1 };
+        let step = 1;
         for &len in lens.iter().step_by(step) {
             let m = g.text(len);
             let f = footers[len % 3];
